@@ -221,8 +221,8 @@ where
     /// Divide this polynomial by another, getting a quotient and remainder, using tol to check for 0
     pub fn divide(&self, divisor: &Polynomial<N>) -> Result<(Self, Self), String> {
         if divisor.coefficients.len() == 1
-            && divisor.coefficients[0].real().abs() < self.tolerance
-            && divisor.coefficients[0].imaginary().abs() < self.tolerance
+            && divisor.coefficients[0].real().abs() <= self.tolerance
+            && divisor.coefficients[0].imaginary().abs() <= self.tolerance
         {
             return Err("Polynomial division: Can not divide by 0".to_owned());
         }
@@ -247,8 +247,8 @@ where
 
         while remainder.coefficients.len() >= divisor.coefficients.len()
             && !(remainder.coefficients.len() == 1
-                && remainder.coefficients[0].real().abs() < self.tolerance
-                && remainder.coefficients[0].imaginary().abs() < self.tolerance)
+                && remainder.coefficients[0].real().abs() <= self.tolerance
+                && remainder.coefficients[0].imaginary().abs() <= self.tolerance)
         {
             // Get the power left over from dividing lead terms
             let order = remainder.coefficients.len() - divisor.coefficients.len();
@@ -272,9 +272,11 @@ where
             }
             // remainder -= temp x d;
             remainder -= &temp;
+            // The leading term is cancelled by construction: whatever rounding left of it goes
+            remainder.coefficients.pop();
             while remainder.coefficients.len() > 1
-                && remainder.coefficients.last().unwrap().real().abs() < self.tolerance
-                && remainder.coefficients.last().unwrap().imaginary().abs() < self.tolerance
+                && remainder.coefficients.last().unwrap().real().abs() <= self.tolerance
+                && remainder.coefficients.last().unwrap().imaginary().abs() <= self.tolerance
             {
                 remainder.coefficients.pop();
             }
